@@ -140,7 +140,10 @@ impl NetcodeServer {
             connect_key,
             max_clients: config.max_clients,
             challenge_sequence: 0,
-            global_sequence: 0,
+            // Packets sent before a session exists (challenge, denied) are sealed under the session's
+            // server-to-client key as well: keep their sequence numbers (the nonce) disjoint from the
+            // per-session counter, which starts at 0 (same as the netcode reference implementation).
+            global_sequence: 1 << 63,
             challenge_key,
             public_addresses: config.public_addresses,
             current_time: config.current_time,
